@@ -1,17 +1,40 @@
 import Blue.Proofs.Books
 import Blue.Proofs.Ledger
 import Blue.Proofs.SetsumGrp
+import Blue.Proofs.VerifyJoin
+import Blue.Proofs.ConstsTieC04
 /-! # Property C04 — one setsum covers all data: manifest, files and contents always balance
 
-Property theorems only.  The bookkeeping is stated over any commutative group (`Grp`), and the
-canonical setsum values of C14 are shown to be one (`setsumGrp`); the driver runs
-`Blue.Books.verify setsumGrp` — the verifier's chain / balance / recomputed-discard pass — on
-the records of every manifest fragment the real store writes and compares the verdict with the
-real `ManifestVerifier`, also on tampered copies.
+Property theorems only.  Two layers, both over any commutative group (`Grp`; the canonical setsum
+values of C14 are one: `setsumGrp`):
 
-Not a theorem: that a file's setsum equals the setsum of the entries stored in it (C10's
-`metadata_exact` + C14's `matches_definition`, checked per file by the harness), and that a
-changed entry changes the file's setsum (`h(e) ≠ 0`, `h(e) ≠ h(e')`: a hash assumption). -/
+* **digests** (`Blue.Books`, one fragment, `D := Σ removed − Σ added` in every record): the record
+  `apply_manifest_*` writes has `O` = the sum over the files of the new version (`tx_balances`);
+  the chain / balance / discard pass (`ManifestVerifier`) accepts every chain of valid requests —
+  a request that removes and adds one digest included — and the last `O` is the sum over the final
+  files (`verifier_accepts`, `last_output`); one altered `I`, `O` or `D` digest, or one altered
+  setsum of an added or removed file, is rejected (`tamper_*`).
+* **contents** (`Blue.VerifyOne`, the model of `LsmVerifier::verify_one` / `verify_contents` /
+  `verify_gc` with files as lists of entries and an item hash `h`): every history of the store
+  model (ingest; compaction cut anywhere; garbage collection under any policy of C05's `gcP`;
+  trivial move; an output that reproduces an input) is accepted fragment by fragment
+  (`verifier_accepts_honest`); an accepted fragment balances and every file it read sums to its
+  name, and every garbage collection in it wrote only entries of its inputs and discarded exactly
+  the rest (`verify_one_sound`, `gc_outputs_are_inputs`); one entry of one named file dropped,
+  added, duplicated or altered is rejected with the contents error, under the exact hash
+  hypothesis (`entry_*_rejected`); and joined with C08's protocol: whatever a pass unlinks belongs
+  to a fragment with those properties (`verifier_pass_sound`).
+
+The driver runs `Blue.Books.verify setsumGrp` against the real `ManifestVerifier` and
+`Blue.Verifier.pass (contentChecker …)` against whole passes of the real `LsmVerifier` on the dumped
+directory and file contents (item hashes computed by the real `sst::Setsum`).
+
+Clauses of the property that are not theorems here: the crash points of C02, and tampers of the
+first record of a fragment (`first_edit_checks` says what is checked there) — see `partial` in
+bin/props.py.  A trivial move writes no manifest edit.
+
+Hash assumptions are explicit and minimal: `h x ≠ 0` (an entry that hashes to zero can be dropped or
+added unseen by any sum), `h x' ≠ h x`, and `NoCollision` for multisets where a theorem needs it. -/
 namespace Blue.Props.C04
 open Blue.Books Blue.Setsum
 
@@ -24,9 +47,11 @@ theorem sub_is_group_sub {a b : State} (ha : Canonical a) (hb : Canonical b) :
 
 variable {G : Type} [DecidableEq G] (g : Grp G) {F : Type} [DecidableEq F] (s : F → G)
 
-/-- **every transaction balances**: with `I` the sum over the tree's files, `D` = removed − added
-    and `O = I − D` (what `apply_manifest_*` writes), `I = O + D` and `O` is the sum over the
-    files of the new version -/
+/-- **the new version sums to the recorded output**: with `I` the sum over the tree's files,
+    `D := Σ removed − Σ added` and `O := I − D` (the record `apply_manifest_*` writes), `O` is the sum
+    over the files of the new version (second conjunct).  The first conjunct, `I = O + D`, is the
+    group law — it holds by the construction of `O`, whatever the files are; it is listed because it
+    is the equation the code asserts (`compaction_finish`) and the verifier checks. -/
 theorem tx_balances (files rm ad : List F) (hnd : files.Nodup) (hrm : rm.Nodup)
     (hsub : ∀ f ∈ rm, f ∈ files) :
     let I := total g s files
@@ -34,12 +59,35 @@ theorem tx_balances (files rm ad : List F) (hnd : files.Nodup) (hrm : rm.Nodup)
     let O := g.sub I D
     I = g.add O D ∧ total g s (applyTx files rm ad) = O := Blue.Books.tx_balances g s files rm ad hnd hrm hsub
 
-/-- **the verifier accepts every chain of transactions the store writes** (any mix of ingests,
-    moves, compactions, GCs), and the last `O` is the sum over the final files -/
+/-- **the chain / balance / discard pass accepts every chain of valid requests** (ingests,
+    compactions, collections in any order; a trivial move writes no edit), one fragment, with
+    `D := Σ removed − Σ added` in every record.  `ValidReqs` — removed files live and distinct, added
+    files distinct and not live unless removed by the same request (a compaction that reproduces an
+    input) — is a hypothesis about what the tree requests (props.py assumptions); that the store's
+    `discard_setsum`, which it computes from the dropped ENTRIES, is that `D` is
+    `recorded_discard_is_removed_minus_added` below. -/
 theorem verifier_accepts (reqs : List (List F × List F)) (files : List F) (hnd : files.Nodup)
     (hv : ValidReqs files reqs) :
     verify g s (total g s files) (ledger g s files reqs) = true :=
   Blue.Books.verifier_accepts g s reqs files hnd hv
+
+/-- … and the last recorded output is the sum over the files of the final version -/
+theorem last_output (reqs : List (List F × List F)) (files : List F) (hnd : files.Nodup)
+    (hv : ValidReqs files reqs) (hne : reqs ≠ []) :
+    ((ledger g s files reqs).getLast?.map (·.O)) = some (total g s (Blue.Books.finalFiles files reqs)) :=
+  Blue.Books.last_output g s reqs files hnd hv hne
+
+/-- non-vacuity of `ValidReqs`, with a request that removes and adds one digest: files 1 and 2 are
+    compacted into file 2 (again) and file 3 -/
+example : ValidReqs ([] : List Nat) exReadd ∧ verify intGrp exS 0 (ledger intGrp exS [] exReadd) = true
+    ∧ Blue.Books.finalFiles [] exReadd = [2, 3] :=
+  ⟨by simp [ValidReqs, ValidReq, exReadd, applyTx], by decide, by decide⟩
+
+/-- one altered input digest ⇒ reject -/
+theorem tamper_input_rejected (prev : G) (a b : List (Rec G F)) (r : Rec G F) (i' : G)
+    (hv : verify g s prev (a ++ r :: b) = true) (hne : i' ≠ r.I) :
+    verify g s prev (a ++ { r with I := i' } :: b) = false :=
+  Blue.Books.tamper_input_rejected g s prev a b r i' hv hne
 
 /-- one altered output digest ⇒ reject -/
 theorem tamper_output_rejected (prev : G) (a b : List (Rec G F)) (r : Rec G F) (o' : G)
@@ -53,6 +101,274 @@ theorem tamper_discard_rejected (prev : G) (a b : List (Rec G F)) (r : Rec G F) 
     verify g s prev (a ++ { r with D := d' } :: b) = false :=
   Blue.Books.tamper_discard_rejected g s prev a b r d' hv hne
 
+/-- one altered setsum of a file that a transaction adds (and does not remove) ⇒ reject: the
+    verifier recomputes the discard from the files -/
+theorem tamper_added_file_rejected (prev : G) (a b : List (Rec G F)) (r : Rec G F) (s' : F → G) (f : F)
+    (hok : verify g s prev (a ++ r :: b) = true) (hs : ∀ x, x ≠ f → s' x = s x) (hf : s' f ≠ s f)
+    (had : r.ad.Nodup) (hin : f ∈ r.ad) (hrm : f ∉ r.rm) :
+    verify g s' prev (a ++ r :: b) = false :=
+  Blue.Books.tamper_added_file_rejected g s prev a b r s' f hok hs hf had hin hrm
+
+/-- … or removes (and does not add) -/
+theorem tamper_removed_file_rejected (prev : G) (a b : List (Rec G F)) (r : Rec G F) (s' : F → G) (f : F)
+    (hok : verify g s prev (a ++ r :: b) = true) (hs : ∀ x, x ≠ f → s' x = s x) (hf : s' f ≠ s f)
+    (hrmnd : r.rm.Nodup) (hin : f ∈ r.rm) (had : f ∉ r.ad) :
+    verify g s' prev (a ++ r :: b) = false :=
+  Blue.Books.tamper_removed_file_rejected g s prev a b r s' f hok hs hf hrmnd hin had
+
+/-- non-vacuity: in the ledger "ingest 1, ingest 2, compact them into 3" the third record adds file 3
+    and removes files 1 and 2 -/
+example : verify intGrp exS 0 (ledger intGrp exS [] exReqs) = true
+    ∧ (ledger intGrp exS [] exReqs).map (fun r => (r.rm, r.ad)) = [([], [1]), ([], [2]), ([1, 2], [3])] := by decide
+
+/-! ## contents: what `LsmVerifier::verify_one` checks -/
+section Contents
+open Blue.VerifyOne Blue.Verifier
+open Blue.Mani (Edit)
+open Blue.Compact (Entry)
+variable {G : Type} [DecidableEq G] (g : Grp G)
+
+/-- **`verifier_accepts_honest`, one fragment**: the state at a roll-over followed by any history of
+    transactions of the store — ingests, compactions (outputs = the merge of the inputs cut
+    anywhere), garbage collections (outputs = what `gcP` retains, `D` = the sum over the dropped
+    entries), trivial moves, outputs that reproduce an input under its name — is accepted by
+    `verify_one`'s real checks, starting from the sum over the files at the roll-over, and what it
+    returns is the sum over the files at the end.  Hypotheses: the environment computes in `g` and
+    digests read back (`Honest`); the transactions are ones the tree makes (`ValidOps`: inputs are
+    distinct live files, outputs are distinct and not live files other than inputs, the merged
+    inputs of a collection have distinct (key, timestamp)s); every file a transaction reads or
+    writes is in the directory under its name (`Present`). -/
+theorem verifier_accepts_honest (env : Env G) (nm : G → Name) (hh : Honest g env nm) (I D : G)
+    (files : List File) (ops : List StoreOp) (hnd : files.Nodup) (hv : ValidOps env files ops)
+    (hp : Present env files ops) :
+    verifyFragment env (treeSum env.ops env.h files)
+        (rollup env.ops env.h nm I D files :: editsOf env.ops env.h env.policy nm files ops)
+      = .ok (treeSum env.ops env.h (finalFiles env.policy files ops)) :=
+  fragment_accepted g env nm hh I D files ops hnd hv hp
+
+/-- … **for any roll-over points**: the fragments are accepted one after the other, each from what
+    the one before returned -/
+theorem verifier_accepts_honest_rollovers (env : Env G) (nm : G → Name) (hh : Honest g env nm) (I D : G)
+    (segs : List (List StoreOp)) (files : List File) (hnd : files.Nodup) (hv : ValidSegs env files segs) :
+    ∃ acc, verifyAll env (treeSum env.ops env.h files)
+      (fragmentsOf env.ops env.h env.policy nm I D files segs) = .ok acc :=
+  fragments_accepted g env nm hh I D segs files hnd hv
+
+/-- **the discard the store records is Σ removed − Σ added**: `perform_garbage_collection` sums the
+    entries it drops, `perform_compaction` records zero, an ingest records minus the new file — and
+    by conservation (a compaction writes a permutation of what it read; a collection's kept and
+    dropped entries are its inputs, each once) that is the sum over the names of the removed files
+    minus the sum over the names of the added ones, which is what the verifier recomputes -/
+theorem recorded_discard_is_removed_minus_added (env : Env G) (he : env.ops = opsOf g) (op : StoreOp) :
+    opDiscard env.ops env.h env.policy op
+      = computedDiscard g (fsum env) (opRm op) (opAdd env.policy op) :=
+  opDiscard_eq g env he op
+
+/-- **the first edit of a fragment** (the state at the roll-over) is checked for one thing: its `O` is
+    the verifier's accumulator (and its digests parse).  Balance, discard and contents are not looked
+    at (verifier.rs: "The first entry is known to not balance"): an altered `I`, `D` or file list of
+    a roll-up edit is not seen by `verify_one` (the store's open compares the listed files with `O`). -/
+theorem first_edit_checks (env : Env G) (acc : G) (e : Edit) (acc' o : G) :
+    verifyEdit env true acc e = .ok (acc', o) ↔
+      (∃ I D adds rms, info env e 73 = .ok I ∧ info env e 79 = .ok acc ∧ info env e 68 = .ok D
+        ∧ parseAll env e.add = some adds ∧ parseAll env e.rm = some rms) ∧ acc' = acc ∧ o = acc :=
+  verifyEdit_first_ok env acc e acc' o
+
+/-- non-vacuity: digests of the examples read back; the history "ingest `{a@5, a@2, b@3, c@1}`,
+    collect it" is valid, its files are present, and the fragment it writes is the one of the
+    concrete instances below -/
+example : Honest intGrp (exEnv [[a5, a2, b3, c1], [a5, b3, c1]] false) exName ∧
+    ValidOps (exEnv [[a5, a2, b3, c1], [a5, b3, c1]] false) [] [.ingest [a5, a2, b3, c1], .gc [[a5, a2, b3, c1]] []] ∧
+    Present (exEnv [[a5, a2, b3, c1], [a5, b3, c1]] false) [] [.ingest [a5, a2, b3, c1], .gc [[a5, a2, b3, c1]] []] ∧
+    finalFiles (.versions 1) [] [.ingest [a5, a2, b3, c1], .gc [[a5, a2, b3, c1]] []] = [[a5, b3, c1]] := by
+  refine ⟨⟨rfl, ?_⟩, ?_, ?_, by decide⟩
+  · intro s
+    show exParse (exName s) = some s
+    unfold exName exParse
+    by_cases hs : s < 0
+    · simp only [hs, if_true]; congr 1; omega
+    · simp only [hs, if_false]; congr 1; omega
+  · simp only [ValidOps, ValidOp, isMove, Strict]
+    decide
+  · simp only [Present, isMove]
+    decide
+
+/-- **soundness of `verify_one`**: an accepted fragment starts at the verifier's accumulator (its
+    first edit's `O`), and every edit after the first continues from the one before (`I`), balances
+    (`I = O + D`), records the discard its files say (`D = Σ removed − Σ added`), names only files
+    that are there and whose entries sum to their names, and — when it is a garbage collection
+    (`D ≠ 0`, something removed) — satisfies `GcFacts`: the merged outputs' (key, timestamp)s are a
+    sub-list of the merged inputs' ("no data construction"), `D` is the sum over the inputs without
+    a partner, and every key the policy retains is among the outputs or — as the code is — sorts
+    after the last output -/
+theorem verify_one_sound (env : Env G) (he : env.ops = opsOf g) (acc : G) (es : List Edit) (acc' : G)
+    (hok : verifyFragment env acc es = .ok acc') : FragmentFacts g env acc es acc' :=
+  verifyFragment_sound g env he acc es acc' hok
+
+/-- **a garbage collection the verifier accepts wrote only entries of its inputs, values included.**
+    `verify_gc` compares keys and timestamps only; the VALUES of retained entries are pinned by the
+    arithmetic: recorded discard = Σ removed − Σ added (names), names = recomputed contents, computed
+    discard = Σ inputs without partner, so Σ h(outputs) = Σ h(matched inputs), and — no collision
+    between these two multisets — the outputs ARE the matched inputs -/
+theorem gc_outputs_are_inputs (env : Env G) (acc : G) (e : Edit) (o : G) (hf : EditFacts g env acc e o)
+    (D : G) (adds rms : List G) (hD : info env e 68 = .ok D) (ha : parseAll env e.add = some adds)
+    (hr : parseAll env e.rm = some rms) (hne : D ≠ g.zero) (hrm : rms ≠ []) :
+    ∃ ins outs matched, readAll env rms = .ok ins ∧ readAll env adds = .ok outs
+      ∧ matched.Sublist (mergeTables ins) ∧ matched.map kr = (mergeTables outs).map kr
+      ∧ total g env.h (mergeTables outs) = total g env.h matched
+      ∧ (NoCollision g env.h (mergeTables outs) matched → ∀ x ∈ mergeTables outs, x ∈ mergeTables ins) :=
+  Blue.VerifyOne.gc_outputs_are_inputs g env acc e o hf D adds rms hD ha hr hne hrm
+
+/-- **`discard_altered_rejected`, contents**: for given files `verify_gc` accepts one discard — the
+    sum over the inputs without a partner in the outputs (`GcFacts`); any other: "garbage
+    collection has bad discard" -/
+theorem discard_altered_rejected (env : Env G) (rms adds : List G) (D D' : G)
+    (hok : verifyGc env rms adds D = .ok ()) (hne : D' ≠ D) :
+    verifyGc env rms adds D' = .error .gcDiscard :=
+  verifyGc_discard_unique env rms adds D D' hok hne
+
+/-- **`content_tamper_rejected`**: in a fragment the verifier accepts, let the file under ONE name
+    `s` that an edit other than the first adds or removes (an ingest's file, a compaction's input or
+    output, a collection's input in `trash/` or output) hold `f'` instead, with entries that do not
+    sum to `s`; manifest and all other files unchanged.  Then `verify_one` stops with "sst contents
+    do not match the setsum that names it". -/
+theorem content_tamper_rejected (env : Env G) (fs' : G → Option File) (s : G)
+    (hoff : ∀ x, x ≠ s → fs' x = env.fs x) (f' : File) (hf' : fs' s = some f')
+    (hsum : setsumOf env.ops env.h f' ≠ s) (acc : G) (es : List Edit) (acc' : G)
+    (hok : verifyFragment env acc es = .ok acc') (hm : ∃ e ∈ es.drop 1, Mentions env e s) :
+    verifyFragment (withFs env fs') acc es = .error .contents :=
+  Blue.VerifyOne.content_tamper_rejected env fs' s hoff f' hf' hsum acc es acc' hok hm
+
+/-- one entry dropped, provided it does not hash to zero -/
+theorem entry_dropped_rejected (env : Env G) (he : env.ops = opsOf g) (fs' : G → Option File) (s : G)
+    (hoff : ∀ x, x ≠ s → fs' x = env.fs x) (acc : G) (es : List Edit) (acc' : G)
+    (hok : verifyFragment env acc es = .ok acc') (hm : ∃ e ∈ es.drop 1, Mentions env e s)
+    (a b : List Entry) (x : Entry) (hf : env.fs s = some (a ++ x :: b)) (hf' : fs' s = some (a ++ b))
+    (hx : env.h x ≠ g.zero) : verifyFragment (withFs env fs') acc es = .error .contents :=
+  Blue.VerifyOne.entry_dropped_rejected g env he fs' s hoff acc es acc' hok hm a b x hf hf' hx
+
+/-- one entry added, provided it does not hash to zero -/
+theorem entry_added_rejected (env : Env G) (he : env.ops = opsOf g) (fs' : G → Option File) (s : G)
+    (hoff : ∀ x, x ≠ s → fs' x = env.fs x) (acc : G) (es : List Edit) (acc' : G)
+    (hok : verifyFragment env acc es = .ok acc') (hm : ∃ e ∈ es.drop 1, Mentions env e s)
+    (a b : List Entry) (x : Entry) (hf : env.fs s = some (a ++ b)) (hf' : fs' s = some (a ++ x :: b))
+    (hx : env.h x ≠ g.zero) : verifyFragment (withFs env fs') acc es = .error .contents :=
+  Blue.VerifyOne.entry_added_rejected g env he fs' s hoff acc es acc' hok hm a b x hf hf' hx
+
+/-- one entry duplicated (a copy of `x` after it, under the same or another timestamp) -/
+theorem entry_duplicated_rejected (env : Env G) (he : env.ops = opsOf g) (fs' : G → Option File) (s : G)
+    (hoff : ∀ x, x ≠ s → fs' x = env.fs x) (acc : G) (es : List Edit) (acc' : G)
+    (hok : verifyFragment env acc es = .ok acc') (hm : ∃ e ∈ es.drop 1, Mentions env e s)
+    (a b : List Entry) (x : Entry) (t : Nat) (hf : env.fs s = some (a ++ x :: b))
+    (hf' : fs' s = some (a ++ x :: { x with ts := t } :: b)) (hx : env.h { x with ts := t } ≠ g.zero) :
+    verifyFragment (withFs env fs') acc es = .error .contents :=
+  Blue.VerifyOne.entry_duplicated_rejected g env he fs' s hoff acc es acc' hok hm a b x t hf hf' hx
+
+/-- the value of one entry altered (a value for a value, a tombstone for a value, …), provided the
+    two entries do not hash alike; the file may be an ingest's, a compaction's or a collection's:
+    `verify_contents` runs on every added and removed file before `verify_gc` (commit 6a9f385) -/
+theorem entry_value_altered_rejected (env : Env G) (he : env.ops = opsOf g) (fs' : G → Option File) (s : G)
+    (hoff : ∀ x, x ≠ s → fs' x = env.fs x) (acc : G) (es : List Edit) (acc' : G)
+    (hok : verifyFragment env acc es = .ok acc') (hm : ∃ e ∈ es.drop 1, Mentions env e s)
+    (a b : List Entry) (x : Entry) (v : Option (List Nat)) (hf : env.fs s = some (a ++ x :: b))
+    (hf' : fs' s = some (a ++ { x with val := v } :: b)) (hx : env.h { x with val := v } ≠ env.h x) :
+    verifyFragment (withFs env fs') acc es = .error .contents :=
+  Blue.VerifyOne.entry_value_altered_rejected g env he fs' s hoff acc es acc' hok hm a b x v hf hf' hx
+
+/-- one entry replaced by any other (another timestamp, another key) -/
+theorem entry_altered_rejected (env : Env G) (he : env.ops = opsOf g) (fs' : G → Option File) (s : G)
+    (hoff : ∀ x, x ≠ s → fs' x = env.fs x) (acc : G) (es : List Edit) (acc' : G)
+    (hok : verifyFragment env acc es = .ok acc') (hm : ∃ e ∈ es.drop 1, Mentions env e s)
+    (a b : List Entry) (x x' : Entry) (hf : env.fs s = some (a ++ x :: b)) (hf' : fs' s = some (a ++ x' :: b))
+    (hx : env.h x' ≠ env.h x) : verifyFragment (withFs env fs') acc es = .error .contents :=
+  Blue.VerifyOne.entry_altered_rejected g env he fs' s hoff acc es acc' hok hm a b x x' hf hf' hx
+
+/-- non-vacuity of the tamper theorems: the fragment "ingest `{a@5, a@2, b@3, c@1}`, collect it into
+    `{a@5, b@3, c@1}`" is accepted, its collection names the output, and with the value of `b@3`
+    altered under the output's name it is rejected with the contents error -/
+example :
+    (verifyFragment (exEnv [[a5, a2, b3, c1], [a5, b3, c1]] false) 0 (exFrag [a5, a2, b3, c1] [a5, b3, c1])).toOption
+        = some (setsumOf (opsOf intGrp) exH [a5, b3, c1])
+    ∧ (∃ e ∈ (exFrag [a5, a2, b3, c1] [a5, b3, c1]).drop 1,
+        Mentions (exEnv [[a5, a2, b3, c1], [a5, b3, c1]] false) e (setsumOf (opsOf intGrp) exH [a5, b3, c1]))
+    ∧ exH { b3 with val := some [9] } ≠ exH b3 :=
+  ⟨ex_honest_accepted, ⟨_, List.mem_cons_of_mem _ List.mem_cons_self, _, List.mem_cons_self, by decide⟩, by decide⟩
+
+/-- **C04 ∘ C08 `verifier_pass_sound`**: `Blue.Verifier.pass` run with the real checks unlinks in
+    `trash/` only names logged under a fragment whose plan names them and for which
+    `FragmentFacts` holds: it started at the accumulator of that moment, and every edit `e` after
+    its first has `EditFacts`: `I` = the output before it, `I = O + D`, `D = Σ removed − Σ added`,
+    every file named is there and its entries sum to its name, a collection satisfies `GcFacts` —
+    the precondition under which the inputs of its compactions and collections are redundant -/
+theorem verifier_pass_sound (env : Env G) (he : env.ops = opsOf g) (d : Dir G)
+    (h : Reach (contentChecker env) d) (i : Nat) (x : Name)
+    (hx : (pass (contentChecker env) d).1[i]? = some (Act.unlinkTrash x)) :
+    ∃ n es a names later acc',
+      (run d ((pass (contentChecker env) d).1.take i)).vM = some n
+      ∧ (n, es, a) ∈ (run d ((pass (contentChecker env) d).1.take i)).done
+      ∧ plan false later es = some names ∧ x ∈ names
+      ∧ FragmentFacts g env a es acc'
+      ∧ ∀ e ∈ es.drop 1, ∃ a1 o, EditFacts g env a1 e o :=
+  Blue.VerifyOne.verifier_pass_sound g env he d h i x hx
+
+/-- non-vacuity: a directory whose pass, with the real checks, verifies the collection of the
+    examples and unlinks its input -/
+def exDir : Dir Int :=
+  { sst := [exName (setsumOf (opsOf intGrp) exH [a5, b3, c1])],
+    trash := [trashSst (exName (setsumOf (opsOf intGrp) exH [a5, a2, b3, c1]))],
+    frags := [(1, exFrag [a5, a2, b3, c1] [a5, b3, c1]), (2, [])], live := [],
+    vstrs := [], vM := none, vO := 0, done := [] }
+
+/-- is this action the unlink of `x` in `trash/`? -/
+def isUnlinkOf (x : Name) : Act Int → Bool
+  | .unlinkTrash y => y == x
+  | _ => false
+
+example : Reach (contentChecker (exEnv [[a5, a2, b3, c1], [a5, b3, c1]] false)) exDir ∧
+    (pass (contentChecker (exEnv [[a5, a2, b3, c1], [a5, b3, c1]] false)) exDir).2 = .ok ∧
+    ((pass (contentChecker (exEnv [[a5, a2, b3, c1], [a5, b3, c1]] false)) exDir).1.map
+      (isUnlinkOf (trashSst (exName (setsumOf (opsOf intGrp) exH [a5, a2, b3, c1]))))) = [false, false, true, false] :=
+  ⟨Reach.fresh _ rfl rfl rfl, by decide, by decide⟩
+
+/-- **as the code is** (observation, not a violation of C04's words — see DESIGN / the hand-back):
+    a collection that also drops `c@1`, the newest version of the last key, which the policy
+    retains, with every digest consistent, is accepted: the inputs left when the outputs are
+    exhausted go to the computed discard unexamined.  The same drop before the last output is "data
+    loss"; with the inputs left over compared with the collector too
+    (fixes/c04-verify-gc-tail.diff, `tailChecked`), so is this one. -/
+theorem gc_tail_loss_accepted :
+    (verifyFragment (exEnv [[a5, a2, b3, c1], [a5, b3]] false) 0 (exFrag [a5, a2, b3, c1] [a5, b3])).toOption
+        = some (setsumOf (opsOf intGrp) exH [a5, b3])
+      ∧ (c1.key, c1.ts) ∈ retained (.versions 1) (mergeTables [[a5, a2, b3, c1]])
+      ∧ verifyFragment (exEnv [[a5, a2, b3, c1], [a5, b3]] true) 0 (exFrag [a5, a2, b3, c1] [a5, b3])
+        = .error .gcDataLoss
+      ∧ verifyFragment (exEnv [[a5, a2, b3, c1], [a5, c1]] false) 0 (exFrag [a5, a2, b3, c1] [a5, c1])
+        = .error .gcDataLoss :=
+  ⟨ex_tail_loss_accepted.1, ex_tail_loss_accepted.2.1, ex_tail_loss_accepted.2.2, ex_inner_loss_rejected⟩
+
+/-- what `verify_gc` guarantees about retention in general (the clause of `GcFacts`, from the walk):
+    every key the collector retains is among the outputs, or — `tail = false`, the code as it is —
+    sorts after every output -/
+theorem gc_retention_up_to_last_output (h : Entry → G) (tail : Bool) (ins outs : List Entry)
+    (R : List KeyRef) (acc d : G) (hs : Strict ins) (hR : R.Sublist (ins.map kr))
+    (hok : gcWalk (opsOf g) h tail ins outs R acc = .ok d) :
+    ∀ r ∈ R, r ∈ outs.map kr ∨ (tail = false ∧ ∀ o ∈ outs, krLt (kr o) r = true) :=
+  gcWalk_retains g h tail ins outs R acc d hs hR hok
+
+/-- a digest text in which the first digit of a byte `0x` is written `+x` reads as the same value
+    (`u8::from_str_radix` takes a sign): such an edit of one character of a recorded digest changes
+    nothing the verifier computes with — the record says what it said -/
+theorem hexdigest_sign_same_value (d : Char) : Blue.Setsum.parsePair '+' d = Blue.Setsum.parsePair '0' d := by
+  unfold Blue.Setsum.parsePair
+  simp only [if_true]
+  have h0 : ('0' = '+') = False := by decide
+  simp only [h0, if_false]
+  have hz : Blue.Setsum.digitVal '0' = some 0 := rfl
+  rw [hz]
+  cases Blue.Setsum.digitVal d <;> simp
+
+end Contents
+
 end Blue.Props.C04
 
 #print axioms Blue.Props.C04.group
@@ -61,5 +377,24 @@ end Blue.Props.C04
 #print axioms Blue.Props.C04.verifier_accepts
 #print axioms Blue.Props.C04.tamper_output_rejected
 #print axioms Blue.Props.C04.tamper_discard_rejected
-#print axioms Blue.Books.tamper_file_rejected
-#print axioms Blue.Books.total_change
+#print axioms Blue.Props.C04.last_output
+#print axioms Blue.Props.C04.tamper_input_rejected
+#print axioms Blue.Props.C04.tamper_added_file_rejected
+#print axioms Blue.Props.C04.tamper_removed_file_rejected
+#print axioms Blue.Props.C04.recorded_discard_is_removed_minus_added
+#print axioms Blue.Props.C04.first_edit_checks
+#print axioms Blue.Props.C04.verifier_accepts_honest
+#print axioms Blue.Props.C04.verifier_accepts_honest_rollovers
+#print axioms Blue.Props.C04.verify_one_sound
+#print axioms Blue.Props.C04.gc_outputs_are_inputs
+#print axioms Blue.Props.C04.discard_altered_rejected
+#print axioms Blue.Props.C04.content_tamper_rejected
+#print axioms Blue.Props.C04.entry_dropped_rejected
+#print axioms Blue.Props.C04.entry_added_rejected
+#print axioms Blue.Props.C04.entry_duplicated_rejected
+#print axioms Blue.Props.C04.entry_value_altered_rejected
+#print axioms Blue.Props.C04.entry_altered_rejected
+#print axioms Blue.Props.C04.verifier_pass_sound
+#print axioms Blue.Props.C04.gc_tail_loss_accepted
+#print axioms Blue.Props.C04.gc_retention_up_to_last_output
+#print axioms Blue.Props.C04.hexdigest_sign_same_value
